@@ -37,6 +37,11 @@ def main(p):
 
     def plan(cell):
         """-> list of (values dict field->str, expected header map, rest_ok)"""
+        if cell['kind'] == 'explicit' and not cell['params']:
+            # the empty annotation: the path variable is filled, and still no header may be sent
+            yield {'name': 'shelves/s1'}, {}, True
+            yield {'name': 'shelves/a b', 'table': 't'}, {}, True
+            return
         if cell['kind'] == 'explicit':
             fields = []
             for f, _ in cell['params']:
@@ -146,6 +151,20 @@ def main(p):
                     judge(cell, 'sync', vals, h, exp)
             except BaseException as e:
                 fail(cell, 'sync', vals, 'exception', probelib.exc_info(e))
+            if cell.get('kwargs'):
+                # the same request given as flattened keyword arguments
+                ch.log.clear()
+                ch.script = [raw_reply]
+                try:
+                    getattr(client, cell['py'])(**request_of(vals))
+                    out['calls'] += 1
+                    st, h = header_of_grpc(ch.log)
+                    if st != 'OK':
+                        fail(cell, 'sync/kwargs', vals, 'header-duplicate' if st == 'DUP' else 'call-count', h)
+                    else:
+                        judge(cell, 'sync/kwargs', vals, h, exp)
+                except BaseException as e:
+                    fail(cell, 'sync/kwargs', vals, 'exception', probelib.exc_info(e))
             # REST
             if rest_ok and not cell.get('no_rest'):
                 seam.log.clear()
@@ -191,6 +210,19 @@ def main(p):
                         judge(cell, 'asyncio', vals, h, exp)
                 except BaseException as e:
                     fail(cell, 'asyncio', vals, 'exception', probelib.exc_info(e))
+                if cell.get('kwargs'):
+                    ch.log.clear()
+                    ch.script = [raw_reply]
+                    try:
+                        await getattr(client, cell['py'])(**request_of(vals))
+                        out['calls'] += 1
+                        st, h = header_of_grpc(ch.log)
+                        if st != 'OK':
+                            fail(cell, 'asyncio/kwargs', vals, 'header-duplicate' if st == 'DUP' else 'call-count', h)
+                        else:
+                            judge(cell, 'asyncio/kwargs', vals, h, exp)
+                    except BaseException as e:
+                        fail(cell, 'asyncio/kwargs', vals, 'exception', probelib.exc_info(e))
 
     asyncio.run(amain())
     if len(out['nontrivial']) > 4000:
